@@ -17,8 +17,6 @@ package main
 import (
 	"context"
 	"fmt"
-	"math/rand"
-	"os"
 	"time"
 
 	"verif/internal/drive"
@@ -334,6 +332,3 @@ func gcNewestSurvives(run *harness.Run, cc *caseCtx, j *gcJob) {
 		}
 	}
 }
-
-var _ = rand.Int
-var _ = os.Getenv
